@@ -279,9 +279,11 @@ pub fn gen_lm(rng: &mut ChaCha8Rng, o: &LpGenOpts) -> LmSpec {
         // keep rhs exactly representable and free of float noise
         let b = (b * 1024.0).round() / 1024.0;
         let name = if o.named_rows && rng.gen_bool(0.5) {
-            match rng.gen_range(0..6) {
+            match rng.gen_range(0..7) {
                 0 => format!("c{}", i + 1),
                 1 => format!("c{}", i + 2),
+                // the generated name of any other row, earlier or later
+                5 => format!("c{}", rng.gen_range(1..=m + 1)),
                 2 => format!("row_{i}"),
                 3 => format!("cap{i}"),
                 _ => format!("r{i}"),
